@@ -64,7 +64,7 @@ def gen_n(rng, mode, limit=10 ** 10):
         n = boundary_seconds(rng, mode)
         if abs(n) <= limit:
             return n
-    if r < 0.7:
+    if r < 0.7 or limit > 10 ** 11:
         return rng.randint(-limit, limit)
     return rng.randint(-4 * 10 ** 9, 4 * 10 ** 9)
 
@@ -115,7 +115,9 @@ def gen_op(rng, mode, n_objects):
     if kind == "now":
         return ["now", rng.random() < 0.4]
     if kind in ("from_epoch", "props_from_epoch", "strptime_s"):
-        limit = 10 ** 11 if rng.random() < 0.08 else 10 ** 10
+        r_lim = rng.random()
+        limit = 2 * 10 ** 12 if r_lim < 0.005 else (
+            10 ** 11 if r_lim < 0.10 else 10 ** 10)
         n = gen_n(rng, mode, limit)
         if kind == "from_epoch":
             if n >= 0 and rng.random() < 0.25:
@@ -276,6 +278,20 @@ def gen_edges(rng, index):
                               "frac": 0, "via": "ctor"}
                     steps.append({"k": "op", "op": ["epoch_of", spec24],
                                   "mode": mode})
+    # second counts tens of millennia away ("many millennia either side")
+    if index < 6:
+        for n in ([10 ** 12, -10 ** 12, 999999999999, 10 ** 12 + 86399,
+                   -10 ** 12 - 1, 1234567890123][index % 6::6]):
+            steps.append({"k": "op", "op": ["from_epoch", n, True],
+                          "mode": mode})
+            steps.append({"k": "op", "op": ["from_epoch", n, False],
+                          "mode": mode})
+            steps.append({"k": "op", "op": ["props_from_epoch", n],
+                          "mode": mode})
+            if n >= 0:
+                steps.append({"k": "op", "op": ["parser_new"], "mode": mode})
+                steps.append({"k": "op", "op": ["strptime_s", n, 0],
+                              "mode": mode})
     return {"property": PROP, "kind": "edges", "index": index, "mode": mode,
             "zones": zones, "cur": 0, "isdst": 0,
             "start_us": 946684800 * 10 ** 6, "steps": steps}
